@@ -224,7 +224,16 @@ pub fn bfs<M: Model>(m: &M, max_depth: Option<usize>, max_states: usize) -> BfsR
 /// Re-execute a recorded history (init label + action list) with the oracles on.
 pub fn replay<M: Model>(m: &M, case: &Value) -> Option<Vec<Violation>> {
     let mut acc = Acc::new();
-    let inits = m.inits(&mut Acc::new());
+    // (violations found while the initial states are being produced - e.g. by the construction of a
+    // collection from pairs - carry the label of that initial state and no actions)
+    let mut ia = Acc::new();
+    let inits = m.inits(&mut ia);
+    if case["actions"].as_array().map(|a| a.is_empty()).unwrap_or(false) {
+        let own: Vec<Violation> = ia.violations.into_iter().filter(|v| v.case["init"] == case["init"]).collect();
+        if !own.is_empty() {
+            return Some(own);
+        }
+    }
     let (label, mut st) = inits.into_iter().find(|(l, _)| l == &case["init"])?;
     let mut done: Vec<Value> = Vec::new();
     {
